@@ -95,7 +95,8 @@ func c05Container(kind int) gopacket.DecodingLayerContainer {
 }
 
 type c05Set struct {
-	types []gopacket.LayerType
+	decoys bool // register a first object for every other type before the real one (replacement must work)
+	types  []gopacket.LayerType
 	objs  map[gopacket.LayerType]gopacket.DecodingLayer
 	in    map[gopacket.LayerType]bool
 }
@@ -116,6 +117,17 @@ func c05MakeSet(types []gopacket.LayerType) *c05Set {
 func (s *c05Set) parser(first gopacket.LayerType, kind int) *gopacket.DecodingLayerParser {
 	p := gopacket.NewDecodingLayerParser(first)
 	dlc := c05Container(kind)
+	if s.decoys {
+		// register other objects for some of the types first: the objects registered last replace them in every
+		// container ("whichever container is used"), so the values must still arrive in s.objs
+		for i, t := range s.types {
+			if i%2 == 0 {
+				if d := c05New(t); d != nil {
+					dlc = dlc.Put(d)
+				}
+			}
+		}
+	}
 	for _, t := range s.types {
 		if d := s.objs[t]; d != nil {
 			dlc = dlc.Put(d)
@@ -312,8 +324,19 @@ func c05Parser(c *vlib.Ctx) {
 				}
 			}
 			set := c05MakeSet(types)
+			set.decoys = r.Chance(1, 3)
+			if set.decoys {
+				c.Count("sets_with_replaced_registrations", 1)
+			}
 			var ref string
 			for kind := 0; kind < 4; kind++ {
+				if kind > 0 {
+					// fresh objects per container: values left by the previous container's run must not stand in for
+					// values this container failed to deliver
+					decoys := set.decoys
+					set = c05MakeSet(types)
+					set.decoys = decoys
+				}
 				nl, ok := c05Compare(c, first, b, set, kind, how)
 				c.Evals(1)
 				if !ok {
